@@ -199,7 +199,7 @@ func init() {
 			o.violate(Violation{Property: "C19", Kind: "direct", What: "default services not registered at start-up", Case: "codec.Get", Key: "defaults"})
 		}
 		// (a) sequential histories: implementation vs the model's map specification
-		seqRuns := 400
+		seqRuns := 1500
 		if thorough {
 			seqRuns = 6000
 		}
@@ -332,9 +332,9 @@ func init() {
 // ---- C20: independent messages encode/decode in parallel with the sequential results ----
 func init() {
 	suites["C20"] = func(o *Out, g *Gen, thorough bool) map[string]any {
-		per := 3
+		per := 6
 		if thorough {
-			per = 20
+			per = 60
 		}
 		type item struct {
 			v    *Val
